@@ -39,7 +39,7 @@ func init() {
 	})
 	Register(&Rule{
 		Name:  "R-SENDTO-FRESH",
-		Props: []string{"C11"},
+		Props: []string{"C11", "C10"},
 		Min:   1,
 		Doc: "Hub.SendTo resolves peer id -> connection id -> connection in one place (one critical section, evaluated again on every attempt of the wait for room): " +
 			"with the connection id resolved once in front of the wait, a peer that is replaced by a reconnect under the same id meanwhile is connected and listed but the message is reported undeliverable",
